@@ -166,7 +166,12 @@ pub fn replay_with(ctx: &CheckCtx, run: &dyn Fn(&str, &[u8]) -> Verdict) -> i32 
             return 2;
         }
     };
-    match run(&case.subcheck, &case.choices) {
+    // inputs saved by the byte-level libFuzzer targets are text, not choice streams
+    let verdict = match crate::fuzzentry::replay_text(&case.subcheck, &case.choices) {
+        Some(v) => v,
+        None => run(&case.subcheck, &case.choices),
+    };
+    match verdict {
         Verdict::Pass => {
             println!("replay: case passes");
             0
